@@ -105,6 +105,21 @@ def gen_rounds(seed, tier, run):
                 if o < 5 or rng.random() < 0.5:
                     ops.append(f"op2a@{ty} z{o} {arr(s1, e1)} {arr(s2, e2)}")
     run(ops)
+    # joins of inputs that do not fit together (ragged vectors, differing rows / columns): refused, never answered
+    rag = []
+    L = lambda arrs: f"L{len(arrs)} " + " ".join(arrs)
+    for op in ("vstack", "row_stack", "dstack", "column_stack", "stack", "concatenate"):
+        tail = " z0" if op in ("stack", "concatenate") else ""
+        for lens in itertools.product((1, 2, 3, 4), repeat=2):
+            rag.append(f"{op} {L([arr([n], base=10 * k) for k, n in enumerate(lens)])}{tail}")
+        for lens in itertools.product((1, 2, 3), repeat=3):
+            rag.append(f"{op} {L([arr([n], base=10 * k) for k, n in enumerate(lens)])}{tail}")
+        for s1 in ([2, 2], [2, 3], [3, 2], [1, 2], [2, 1]):
+            for s2 in ([2, 2], [2, 3], [3, 2], [1, 3], [3], [2]):
+                rag.append(f"{op} {L([arr(s1), arr(s2, base=50)])}{tail}")
+                if op in ("stack", "concatenate"):
+                    rag.append(f"{op} {L([arr(s1), arr(s2, base=50)])} z1")
+    run(rag)
     # surface sweep
     per = 250 if tier == "quick" else 3000
     sweep = []
